@@ -424,12 +424,24 @@ func (c *Cluster) judgeTokenBatch(i int, s Step, r *simkit.Run, mk func(int, Ste
 		desc    string
 	}
 	var exps []exp
+	outside := false
 	for _, o := range s.Ops {
 		var cur uint64
 		if _, ex, _ := st.ACLTokenGetByAccessor(nil, o.ID, nil); ex != nil {
 			cur = ex.ModifyIndex
 		}
-		exps = append(exps, exp{id: o.ID, cur: cur, matched: setCAS(cur != 0, cur, resolveIdx(o.Idx, cur)), desc: o.Text2})
+		matched := setCAS(cur != 0, cur, resolveIdx(o.Idx, cur))
+		// secrets are unique and never change: the ACL endpoints (and a primary datacenter, for replication) see to
+		// that before anything reaches the log. A batch that brings a secret another accessor holds, or another secret
+		// for an existing accessor, is outside that precondition (the table is keyed by secret: such a member replaces
+		// the other accessor's row, and with it the "current index" of a later member) - nothing is claimed about it
+		if _, ex, _ := st.ACLTokenGetByAccessor(nil, o.ID, nil); ex != nil && ex.SecretID != o.Text {
+			outside = true
+		}
+		if _, other, _ := st.ACLTokenGetBySecret(nil, o.Text, nil); other != nil && other.AccessorID != o.ID {
+			outside = true
+		}
+		exps = append(exps, exp{id: o.ID, cur: cur, matched: matched, desc: o.Text2})
 	}
 	nlog := len(c.Log)
 	out := c.Do(s)
@@ -437,6 +449,10 @@ func (c *Cluster) judgeTokenBatch(i int, s Step, r *simkit.Run, mk func(int, Ste
 		return mk(i, s, "panic", "apply-does-not-panic", c.Fatal.Error())
 	}
 	if len(c.Log) == nlog {
+		return nil
+	}
+	if outside {
+		r.Hit("probe.cas.acl.token.batch.outside-precondition")
 		return nil
 	}
 	idx := c.Log[len(c.Log)-1].Index
